@@ -1,6 +1,7 @@
 package main
 
 import (
+	"fmt"
 	"strconv"
 	"strings"
 
@@ -116,13 +117,14 @@ func opFindNS(args string) string {
 			continue
 		}
 		f := strings.Split(e, "~")
-		base.SetDefinedClass(f[0], f[1])
+		base.SetDefinedClass(dash(f[0]), f[1])
 	}
 	frame := hf[0]
 	if frame == "-" {
 		frame = ""
 	}
-	return "[" + base.FindDefinedClassFrame(frame, hf[1]) + "]"
+	lf, found := base.LookupDefinedClassFrame(frame, hf[1])
+	return "[" + base.FindDefinedClassFrame(frame, hf[1]) + "] [" + lf + "] " + b01(found)
 }
 
 func init() {
@@ -197,6 +199,35 @@ func opLookup(args string) string {
 	return r.GetObjectClass()
 }
 
+// addparent <node> <node> ...   node = frame~class~include~extend ("-" = empty; OBJ = the implicit Object ancestor)
+// registers the nodes in order for a fresh class through base.AddParentNode (OBJ is appended the way the class
+// evaluator and the loader register it) and prints the resulting ancestor list
+func opAddParent(args string) string {
+	child := base.ClassNode{Frame: "T", Class: "Child"}
+	delete(base.ClassInheritanceMap, child)
+	for _, f := range strings.Fields(args) {
+		if f == "OBJ" {
+			base.ClassInheritanceMap[child] = append(base.ClassInheritanceMap[child], base.ClassNode{Frame: "Builtin", Class: ""})
+			continue
+		}
+		x := strings.Split(f, "~")
+		base.AddParentNode(child, base.ClassNode{Frame: dash(x[0]), Class: dash(x[1]), IsInclude: x[2] == "1", IsExtend: x[3] == "1"})
+	}
+	var out []string
+	for _, n := range base.ClassInheritanceMap[child] {
+		out = append(out, fmt.Sprintf("%s~%s~%s~%s", undash(n.Frame), undash(n.Class), b01(n.IsInclude), b01(n.IsExtend)))
+	}
+	return strings.Join(out, " ")
+}
+
+func undash(s string) string {
+	if s == "" {
+		return "-"
+	}
+	return s
+}
+
 func init() {
 	ops["lookup"] = opLookup
+	ops["addparent"] = opAddParent
 }
